@@ -105,15 +105,15 @@ theorem prepare_fixed (t : Target) (e : Lim) :
 theorem interiorsT_fixed {idx : Index} (hi : IdxOK idx) (t : Target) (o : Opts) :
     ∃ i, interiorsT Fixes.all idx t o =
         some (i, if o.includeInteriors then some (if (liveIds t.idx.shapes).isEmpty then [] else liveIds idx.shapes) else none) ∧
-      IdxOK i ∧ i.shapes = idx.shapes ∧ (idx.status = .fresh → i = idx) := by
+      IdxOK i ∧ i.shapes = idx.shapes ∧ (idx.status = .fresh → i = idx) ∧ i.gone = idx.gone := by
   unfold interiorsT
   by_cases hin : o.includeInteriors = true
   · by_cases he : (liveIds t.idx.shapes).isEmpty = true
-    · exact ⟨idx, by simp [hin, he], hi, rfl, fun _ => rfl⟩
+    · exact ⟨idx, by simp [hin, he], hi, rfl, fun _ => rfl, rfl⟩
     · obtain ⟨i, hm⟩ := mau_fixed_isSome (f := Fixes.all) rfl idx
       obtain ⟨h1, h2, _, _, h5⟩ := mau_some hi hm
-      exact ⟨i, by simp [hin, he, hm, h5], h1, h2, fun hf => mau_fresh_id hm hf⟩
-  · exact ⟨idx, by simp [hin], hi, rfl, fun _ => rfl⟩
+      exact ⟨i, by simp [hin, he, hm, h5], h1, h2, fun hf => mau_fresh_id hm hf, mau_gone hm⟩
+  · exact ⟨idx, by simp [hin], hi, rfl, fun _ => rfl, rfl⟩
 
 /-- facts about the target object after a call -/
 structure TPost (t t' : Target) : Prop where
@@ -146,26 +146,26 @@ theorem optT_fixed {idx : Index} {q : EQ} (t : Target) (o : Opts) (rep : Report)
             if (liveIds t.idx.shapes).isEmpty then none else
               some (searchAns t.idx.shapes { t.q.opts with distanceLimit := o.distanceLimit, maxResults := 1 } .single)⟩⟩) ∧
       TPost t t' ∧ IdxOK idx' ∧ idx'.shapes = idx.shapes ∧ CovOK idx' q' ∧ q'.opts = q.opts ∧ q'.user = q.user ∧
-      q'.numEdges = q.numEdges ∧ q'.numEdgesLimit = q.numEdgesLimit := by
+      q'.numEdges = q.numEdges ∧ q'.numEdgesLimit = q.numEdgesLimit ∧ idx'.gone = idx.gone := by
   unfold optT
   -- outer index: built unless a covering is cached (then it is fresh already)
   have stage : ∃ i, (if q.covering.isNone = true then maybeApplyUpdates Fixes.all idx else some idx) = some i ∧
-      IdxOK i ∧ i.shapes = idx.shapes ∧ i.status = .fresh ∧ i.cells = liveIds idx.shapes ∧ CovOK i q := by
+      IdxOK i ∧ i.shapes = idx.shapes ∧ i.status = .fresh ∧ i.cells = liveIds idx.shapes ∧ CovOK i q ∧ i.gone = idx.gone := by
     cases hq : q.covering with
     | none =>
       obtain ⟨i, hm⟩ := mau_fixed_isSome (f := Fixes.all) rfl idx
       obtain ⟨h1, h2, _, h4, h5⟩ := mau_some hi hm
-      exact ⟨i, by simp [hm], h1, h2, h4, h5, by intro c hcq; rw [hq] at hcq; cases hcq⟩
+      exact ⟨i, by simp [hm], h1, h2, h4, h5, (by intro c hcq; rw [hq] at hcq; cases hcq), mau_gone hm⟩
     | some c =>
       obtain ⟨hf, hcc⟩ := hc c hq
-      exact ⟨idx, by simp, hi, rfl, hf, fresh_cells hi hf, hc⟩
-  obtain ⟨i, hst, hiok, hish, hifr, hicells, hic⟩ := stage
+      exact ⟨idx, by simp, hi, rfl, hf, fresh_cells hi hf, hc, rfl⟩
+  obtain ⟨i, hst, hiok, hish, hifr, hicells, hic, hig⟩ := stage
   obtain ⟨ti, hm⟩ := mau_fixed_isSome (f := Fixes.all) rfl t.idx
   obtain ⟨g1, g2, _, _, g5⟩ := mau_some ht hm
   simp only [hst, hm]
   by_cases he : (liveIds t.idx.shapes).isEmpty = true
   · have he' : ti.cells.isEmpty = true := by rw [g5]; exact he
-    refine ⟨i, q, { t with idx := ti }, by simp [he, g5, List.isEmpty_iff.mp he], ⟨g1, g2, rfl, rfl, rfl, rfl⟩, hiok, hish, hic, rfl, rfl, rfl, rfl⟩
+    refine ⟨i, q, { t with idx := ti }, by simp [he, g5, List.isEmpty_iff.mp he], ⟨g1, g2, rfl, rfl, rfl, rfl⟩, hiok, hish, hic, rfl, rfl, rfl, rfl, hig⟩
   · have he' : ¬ ti.cells.isEmpty = true := by rw [g5]; exact he
     obtain ⟨t', h1, h2, h3, h4, h5, h6, h7⟩ :=
       innerFind_fixed { t with idx := ti } g1 hcov o.distanceLimit
@@ -173,10 +173,10 @@ theorem optT_fixed {idx : Index} {q : EQ} (t : Target) (o : Opts) (rep : Report)
     cases hq : q.covering with
     | some c =>
       obtain ⟨_, hcc⟩ := hic c hq
-      refine ⟨i, q, t', by simp [hcc, hicells], ⟨h2, by rw [h3]; exact g2, h4, h5, h6, h7⟩, hiok, hish, hic, rfl, rfl, rfl, rfl⟩
+      refine ⟨i, q, t', by simp [hcc, hicells], ⟨h2, by rw [h3]; exact g2, h4, h5, h6, h7⟩, hiok, hish, hic, rfl, rfl, rfl, rfl, hig⟩
     | none =>
       refine ⟨i, { q with covering := some i.cells }, t', by simp [hicells], ⟨h2, by rw [h3]; exact g2, h4, h5, h6, h7⟩,
-        hiok, hish, ?_, rfl, rfl, rfl, rfl⟩
+        hiok, hish, ?_, rfl, rfl, rfl, rfl, hig⟩
       intro c hcq; simp at hcq; exact ⟨hifr, hcq.symm⟩
 
 structure FetPost (idx : Index) (q : EQ) (t : Target) (idx' : Index) (q' : EQ) (t' : Target) : Prop where
@@ -188,6 +188,7 @@ structure FetPost (idx : Index) (q : EQ) (t : Target) (idx' : Index) (q' : EQ) (
   user : q'.user = q.user
   tok : TgtOK t'
   tgeo : t'.geo = t.geo
+  gone : idx'.gone = idx.gone
 
 theorem count_facts {idx : Index} {q : EQ} (hn : NumOK idx q) (hc : CovOK idx q) (m : Nat) (hm : 0 < m) :
     ((q.count idx.shapes m).numEdges < m ↔ numEdgesUpTo idx.shapes m 0 < m) ∧
@@ -217,8 +218,8 @@ theorem fet_fixed {idx : Index} {q : EQ} {t : Target} {o : Opts} {rep : Report}
   unfold findEdgesT searchAnsT
   by_cases hz : (o.distanceLimit == Lim.zero) = true
   · simp only [hz, if_true]
-    exact ⟨idx, q, t, rfl, hi, rfl, hc, hn, rfl, rfl, ht, rfl⟩
-  · obtain ⟨i, hint, hiok, hish, hikeep⟩ := interiorsT_fixed hi t o
+    exact ⟨idx, q, t, rfl, hi, rfl, hc, hn, rfl, rfl, ht, rfl, rfl⟩
+  · obtain ⟨i, hint, hiok, hish, hikeep, hig⟩ := interiorsT_fixed hi t o
     obtain ⟨p1, p2, p3, p4, p5⟩ := prepare_fixed t o.maxError
     have hni : NumOK i q := by unfold NumOK; rw [hish]; exact hn
     have hci : CovOK i q := by
@@ -246,7 +247,7 @@ theorem fet_fixed {idx : Index} {q : EQ} {t : Target} {o : Opts} {rep : Report}
         (if o.includeInteriors then some (if (liveIds t.idx.shapes).isEmpty then [] else liveIds idx.shapes) else none)
         (if o.includeInteriors then some (liveIds t.idx.shapes) else none) ht1 p3
       obtain ⟨k1, k2⟩ := tgeo t' hpost
-      refine ⟨i, _, t', ?_, hiok, hish, c3, c2, c4, c5, k1, k2⟩
+      refine ⟨i, _, t', ?_, hiok, hish, c3, c2, c4, c5, k1, k2, hig⟩
       rw [if_pos hb, hbr, if_pos hb']
       simp only [hio, p1, hish, Target.geo]
       rfl
@@ -254,11 +255,11 @@ theorem fet_fixed {idx : Index} {q : EQ} {t : Target} {o : Opts} {rep : Report}
         rw [← hish]
         simp only [Bool.or_eq_true, decide_eq_true_eq, not_or] at hb ⊢
         exact ⟨hb.1, fun h => hb.2 (c1.2 h)⟩
-      obtain ⟨i', q', t', hop, hpost, o1, o2, o3, o4, o5, o6, o7⟩ := optT_fixed (t.prepare Fixes.all o.maxError) o rep
+      obtain ⟨i', q', t', hop, hpost, o1, o2, o3, o4, o5, o6, o7, o8⟩ := optT_fixed (t.prepare Fixes.all o.maxError) o rep
         (if o.includeInteriors then some (if (liveIds t.idx.shapes).isEmpty then [] else liveIds idx.shapes) else none)
         (if o.includeInteriors then some (liveIds t.idx.shapes) else none) hiok c3 ht1 p3
       obtain ⟨k1, k2⟩ := tgeo t' hpost
-      refine ⟨i', q', t', ?_, o1, by rw [o2, hish], o3, ?_, by rw [o4, c4], by rw [o5, c5], k1, k2⟩
+      refine ⟨i', q', t', ?_, o1, by rw [o2, hish], o3, ?_, by rw [o4, c4], by rw [o5, c5], k1, k2, by rw [o8, hig]⟩
       · rw [if_neg hb, hop, if_neg hb']
         simp only [hio, p1, hish, Target.geo]
         by_cases he : (liveIds t.idx.shapes).isEmpty = true
